@@ -211,6 +211,7 @@ class MBuild:
         self.roots = []
         self.lock = threading.RLock()
         self.root_finished = False
+        self.error_removed = set()   # dirs this build created and removed again (failed outputs)
         self.setup_fail = {}     # key (abs target | sb key) -> exception instance, or
         #                          (key, ordinal) -> exception for the n-th call with that key
         self.call_counts = {}
@@ -257,6 +258,7 @@ class MBuild:
         for a in reversed(need):
             self.v[a] = ('d',)
             self.created.add(a)
+            self.error_removed.discard(a)
         clobbered = self.v.pop(p, None) is not None
         self.claimed_files.add(p)
         self.inprog.add(p)
@@ -278,6 +280,7 @@ class MBuild:
                     not any(q.startswith(a + '/') for q in self.inprog):
                 del self.v[a]
                 self.created.discard(a)
+                self.error_removed.add(a)
             else:
                 break
 
